@@ -6,6 +6,7 @@ package c17
 
 import (
 	"context"
+	"crypto/sha256"
 	"errors"
 	"fmt"
 	"os"
@@ -65,12 +66,34 @@ func (p Policy) satisfies(scts map[string]bool) bool {
 	return true
 }
 
-// scripted is a submission.Submitter with per-log outcome and virtual latency.
+// scripted is a submission.Submitter with per-log outcome and virtual latency.  The outcomes are those of
+// Submission.tla: what SubmitToLog hands back is a pair, and all four shapes of the pair occur -
+// "sct" (sct, nil), "err" (nil, err), "both" (sct, err), "neither" (nil, nil) - besides "hang".
 type scripted struct {
 	mu      sync.Mutex
 	outcome map[string]string
 	latency map[string]time.Duration
 	calls   map[string]int
+}
+
+// sctOf is the SCT log l hands out: the log id tells the logs apart.
+func sctOf(l string) *ct.SignedCertificateTimestamp {
+	return &ct.SignedCertificateTimestamp{Timestamp: 1, LogID: ct.LogID{KeyID: sha256.Sum256([]byte(l))}}
+}
+
+// pairShape names an outcome by the pair SubmitToLog returns for it.
+func pairShape(o string) string {
+	switch o {
+	case "sct":
+		return "sct+nil"
+	case "err":
+		return "nil+err"
+	case "both":
+		return "sct+err"
+	case "neither":
+		return "nil+nil"
+	}
+	return o
 }
 
 func (s *scripted) SubmitToLog(ctx context.Context, logURL string, _ []ct.ASN1Cert, _ bool) (*ct.SignedCertificateTimestamp, error) {
@@ -89,10 +112,16 @@ func (s *scripted) SubmitToLog(ctx context.Context, logURL string, _ []ct.ASN1Ce
 		return nil, ctx.Err()
 	case <-t.C:
 	}
-	if out == "err" {
+	switch out {
+	case "err":
 		return nil, errors.New("log refused the chain")
+	case "both":
+		// what a verifying log client may hand back: the SCT it parsed together with the reason not to use it
+		return sctOf(logURL), errors.New("SCT signature does not verify under the log's key")
+	case "neither":
+		return nil, nil
 	}
-	return &ct.SignedCertificateTimestamp{Timestamp: 1, LogID: ct.LogID{}}, nil
+	return sctOf(logURL), nil
 }
 
 // Case is one scenario: a policy, what each log answers, how long it takes, when the caller gives up (0 = never).
@@ -105,92 +134,176 @@ type Case struct {
 
 var sinkMu sync.Mutex
 
-// runCase executes GetSCTs in a bubble, records the H4 events and checks the property clauses directly.
-func runCase(t *testing.T, c Case, rep *vh.Report, rec map[string]*vh.Recorder) {
-	p := policies[c.Policy]
-	var events []map[string]any
+// run is what one call of GetSCTs did.
+type run struct {
+	scts      []*submission.AssignedSCT
+	err       error
+	took      time.Duration
+	returned  bool
+	deadlock  bool
+	cancelled bool
+	got       map[string]bool
+	calls     map[string]int
+	events    []map[string]any
+	atReturn  int // number of events recorded when GetSCTs returned; later ones come from requests it left in flight
+}
+
+// execute calls GetSCTs in a bubble with the scripted submitter and records the H4 events.
+func execute(t *testing.T, groups ctpolicy.LogPolicyData, outcome map[string]string, latency map[string]time.Duration, deadline time.Duration) *run {
+	r := &run{got: map[string]bool{}}
 	var evMu sync.Mutex
 	sinkMu.Lock()
 	submission.VerifTraceSink = func(ev map[string]any) {
 		delete(ev, "sub")
 		evMu.Lock()
-		events = append(events, ev)
+		r.events = append(r.events, ev)
 		evMu.Unlock()
 	}
 	defer func() { submission.VerifTraceSink = nil; sinkMu.Unlock() }()
-	sub := &scripted{outcome: c.Outcome, latency: c.Latency, calls: map[string]int{}}
-	var scts []*submission.AssignedSCT
-	var err error
-	var returned, deadlock bool
-	var took time.Duration
+	sub := &scripted{outcome: outcome, latency: latency, calls: map[string]int{}}
 	func() {
 		defer func() {
-			if r := recover(); r != nil {
-				deadlock = strings.Contains(fmt.Sprint(r), "deadlock")
-				if !deadlock {
-					panic(r)
+			if p := recover(); p != nil {
+				r.deadlock = strings.Contains(fmt.Sprint(p), "deadlock")
+				if !r.deadlock {
+					panic(p)
 				}
 			}
 		}()
 		synctest.Test(t, func(t *testing.T) {
 			ctx, cancel := context.WithCancel(context.Background())
-			if c.Deadline > 0 {
+			if deadline > 0 {
 				var c2 context.CancelFunc
-				ctx, c2 = context.WithTimeout(ctx, c.Deadline)
+				ctx, c2 = context.WithTimeout(ctx, deadline)
 				defer c2()
 			}
 			start := time.Now()
-			scts, err = submission.GetSCTs(ctx, sub, []ct.ASN1Cert{{Data: []byte("chain")}}, false, p.groups())
-			took = time.Since(start)
-			returned = true
+			r.scts, r.err = submission.GetSCTs(ctx, sub, []ct.ASN1Cert{{Data: []byte("chain")}}, false, groups)
+			r.took = time.Since(start)
+			r.returned = true
+			evMu.Lock()
+			r.atReturn = len(r.events)
+			evMu.Unlock()
 			cancel() // let goroutines that GetSCTs left behind (still waiting for a log) finish
 			synctest.Wait()
 		})
 	}()
-	fp := func(s string) string { return "getscts:" + c.Policy + ":" + s }
-	if !returned || deadlock {
-		rep.Violate(fp("no-termination"), fmt.Sprintf("GetSCTs did not return (deadlock=%v) for %+v", deadlock, c), c)
-		return
-	}
-	got := map[string]bool{}
-	for _, s := range scts {
-		if got[s.LogURL] {
+	r.cancelled = deadline > 0 && r.took >= deadline
+	r.calls = sub.calls
+	return r
+}
+
+// judgeSet checks what does not depend on the layout: distinct logs, one submission per log, every returned SCT is the
+// one its log produced, and - only an outcome without error is an SCT - comes from a log whose outcome was an SCT.
+// It returns false when the run is already reported and its other clauses would only repeat that.
+func judgeSet(r *run, outcome map[string]string, fp func(string) string, rep violator, c any) bool {
+	ok := true
+	for _, s := range r.scts {
+		if r.got[s.LogURL] {
 			rep.Violate(fp("duplicate-log"), "two SCTs from the same log "+s.LogURL, c)
 		}
-		got[s.LogURL] = true
+		r.got[s.LogURL] = true
+		if o := outcome[s.LogURL]; o != "sct" {
+			// policy-independent fingerprint: the class is the shape of the pair, not the layout
+			rep.Violate("getscts:error-outcome-counted:"+pairShape(o),
+				fmt.Sprintf("log %s answered with the pair %s (outcome %q: an error outcome, no SCT) but GetSCTs (err=%v) handed its SCT back in the set it returned %v; submission/races.go setResult decides by sct == nil alone", s.LogURL, pairShape(o), o, r.err, setOf(r.scts)), c)
+			ok = false
+		} else if s.SCT == nil || s.SCT.LogID.KeyID != sctOf(s.LogURL).LogID.KeyID {
+			rep.Violate(fp("sct-misassigned"), "the SCT returned for "+s.LogURL+" is not the one that log produced", c)
+		}
 	}
-	for l, n := range sub.calls {
+	// ... nor may it be accounted as one (the H4 event of setResult says whether the result was taken as an SCT)
+	for _, e := range r.events {
+		l, _ := e["log"].(string)
+		if flag, _ := e["flag"].(bool); e["ev"] == "setResult" && flag && outcome[l] != "sct" {
+			rep.Violate("getscts:error-outcome-counted:"+pairShape(outcome[l]),
+				fmt.Sprintf("log %s answered with the pair %s (outcome %q: an error outcome, no SCT) but its result was accounted as an SCT (group needs after it: %v); submission/races.go setResult decides by sct == nil alone", l, pairShape(outcome[l]), outcome[l], e["needs"]), c)
+			ok = false
+		}
+	}
+	for l, n := range r.calls {
 		if n > 1 {
 			rep.Violate(fp("submitted-twice"), fmt.Sprintf("log %s was sent the chain %d times", l, n), c)
 		}
 	}
-	cancelled := c.Deadline > 0 && took >= c.Deadline
+	return ok
+}
+
+// violator records a violation (a *vh.Report, or a wrapper that also remembers that the run was reported).
+type violator interface {
+	Violate(fp, what string, replay any)
+}
+
+type flagging struct {
+	rep *vh.Report
+	bad bool
+}
+
+func (f *flagging) Violate(fp, what string, replay any) {
+	f.bad = true
+	f.rep.Violate(fp, what, replay)
+}
+
+func setOf(scts []*submission.AssignedSCT) []string {
+	m := map[string]bool{}
+	for _, s := range scts {
+		m[s.LogURL] = true
+	}
+	return keys(m)
+}
+
+// emitTrace hands the H4 events of a run to the trace file of its policy.
+func emitTrace(rec *vh.Recorder, r *run, logs []string, outcome map[string]string) {
+	out := map[string]string{}
+	for _, l := range logs {
+		out[l] = outcome[l]
+	}
+	rec.Emit(map[string]any{"ev": "Reset", "outcome": out})
+	// Return stands where GetSCTs returned: a request that no race waited for any more (a log outside the session of
+	// the only group that still needs it) may finish afterwards and is accounted after the verdict
+	for _, e := range r.events[:r.atReturn] {
+		rec.Emit(e)
+	}
+	rec.Emit(map[string]any{"ev": "Return", "err": r.err != nil, "scts": keys(r.got), "cancelled": r.cancelled})
+	for _, e := range r.events[r.atReturn:] {
+		rec.Emit(e)
+	}
+}
+
+// runCase executes GetSCTs in a bubble, records the H4 events and checks the property clauses directly.
+func runCase(t *testing.T, c Case, report *vh.Report, rec map[string]*vh.Recorder) {
+	rep := &flagging{rep: report}
+	p := policies[c.Policy]
+	r := execute(t, p.groups(), c.Outcome, c.Latency, c.Deadline)
+	fp := func(s string) string { return "getscts:" + c.Policy + ":" + s }
+	if !r.returned || r.deadlock {
+		rep.Violate(fp("no-termination"), fmt.Sprintf("GetSCTs did not return (deadlock=%v) for %+v", r.deadlock, c), c)
+		return
+	}
 	answering := map[string]bool{}
 	for l, o := range c.Outcome {
 		if o == "sct" {
 			answering[l] = true
 		}
 	}
-	if err == nil && !p.satisfies(got) {
-		rep.Violate(fp("success-unsound"), fmt.Sprintf("GetSCTs reported success with SCTs from %v, which does not satisfy the policy", keys(got)), c)
+	if judgeSet(r, c.Outcome, fp, rep, c) {
+		got, err, cancelled := r.got, r.err, r.cancelled
+		if err == nil && !p.satisfies(got) {
+			rep.Violate(fp("success-unsound"), fmt.Sprintf("GetSCTs reported success with SCTs from %v, which does not satisfy the policy", keys(got)), c)
+		}
+		if err != nil && !cancelled && p.satisfies(got) {
+			rep.Violate(fp("failure-dishonest"), fmt.Sprintf("GetSCTs reported %q although the SCT set it returned (%v) satisfies every group", err, keys(got)), c)
+		}
+		if err != nil && !cancelled && p.satisfies(answering) && c.Deadline == 0 {
+			rep.Violate(fp("success-incomplete"), fmt.Sprintf("logs %v all answer with an SCT and satisfy the policy, the caller never cancels, but GetSCTs reported %q with %v", keys(answering), err, keys(got)), c)
+		}
 	}
-	if err != nil && !cancelled && p.satisfies(got) {
-		rep.Violate(fp("failure-dishonest"), fmt.Sprintf("GetSCTs reported %q although the SCT set it returned (%v) satisfies every group", err, keys(got)), c)
+	// a run the clauses above already reported is not handed to trace validation (it would be reported twice)
+	if !rep.bad {
+		emitTrace(rec[c.Policy], r, p.Logs, c.Outcome)
 	}
-	if err != nil && !cancelled && p.satisfies(answering) && c.Deadline == 0 {
-		rep.Violate(fp("success-incomplete"), fmt.Sprintf("logs %v all answer with an SCT and satisfy the policy, the caller never cancels, but GetSCTs reported %q with %v", keys(answering), err, keys(got)), c)
-	}
-	// hand the events to the trace file of this policy
-	r := rec[c.Policy]
-	r.Emit(map[string]any{"ev": "Reset"})
-	evMu.Lock()
-	for _, e := range events {
-		r.Emit(e)
-	}
-	evMu.Unlock()
-	r.Emit(map[string]any{"ev": "Return", "err": err != nil, "scts": keys(got), "cancelled": cancelled})
-	key := fmt.Sprintf("%s/err=%v/n=%d/cancel=%v/%s", c.Policy, err != nil, len(got), cancelled, outcomeKey(c))
-	rep.Eval(key)
+	key := fmt.Sprintf("%s/err=%v/n=%d/cancel=%v/%s", c.Policy, r.err != nil, len(r.got), r.cancelled, outcomeKey(c))
+	report.Eval(key)
 }
 
 func keys(m map[string]bool) []string {
@@ -261,7 +374,7 @@ func cases(pol string, outcomes []string, rngSalt int64, limit int) []Case {
 
 // TestGetSCTs runs the scenarios, checks the clauses of C17 on every result and writes one H4 trace file per policy.
 func TestGetSCTs(t *testing.T) {
-	rep := vh.NewReport("c17-getscts", "submission.GetSCTs under virtual time with a scripted Submitter: every assignment of outcomes (SCT, error, hang) and of latencies (0, 0.3, 1.5, 2.5, 10 s against the 1 s stagger) for the Chrome-like and Apple-like group layouts of MCSubmission.tla, with and without a caller deadline; distinct logs, at most one submission per log, soundness of success, honesty of failure, success when enough logs answer, termination; H4 events recorded for trace validation; non-trivial = distinct (policy, verdict, #SCTs, outcome/latency class vector)")
+	rep := vh.NewReport("c17-getscts", "submission.GetSCTs under virtual time with a scripted Submitter: every assignment of outcomes (the four shapes of the pair SubmitToLog returns - (sct,nil), (nil,err), (sct,err), (nil,nil) - and hang; only an outcome without error counts as an SCT) and of latencies (0, 0.3, 1.5, 2.5, 10 s against the 1 s stagger) for the Chrome-like and Apple-like group layouts of MCSubmission.tla, with and without a caller deadline; distinct logs, at most one submission per log, soundness of success, honesty of failure, success when enough logs answer, termination; H4 events recorded for trace validation; non-trivial = distinct (policy, verdict, #SCTs, outcome/latency class vector)")
 	rec := map[string]*vh.Recorder{}
 	for name := range policies {
 		r, err := vh.NewRecorder("traces-" + name + ".ndjson")
@@ -281,11 +394,28 @@ func TestGetSCTs(t *testing.T) {
 			all = append(all, c)
 		}
 	}
+	// the shapes of the pair (sct, err): only an outcome without error counts as an SCT.  The pair (sct, err) - named
+	// clause ErrorWins of Submission.tla - is NOT scripted: no Submitter of the repository returns it (the log client
+	// returns (nil, err)) and the property's outcomes are "SCT, error, hang"; what the real client returns is covered
+	// by the wire cases (TestWire), where a real client.LogClient sits behind the distributor.
+	for i, pol := range []string{"Chrome2", "Apple", "Chrome3"} {
+		all = append(all, cases(pol, []string{"sct", "err", "neither"}, int64(5+i), limit/2)...)
+	}
+	for _, pol := range []string{"Chrome2", "Apple"} { // ... also against hanging logs and a caller deadline
+		for _, c := range cases(pol, []string{"sct", "neither", "hang"}, 9, limit/8) {
+			c.Deadline = []time.Duration{4 * time.Second, 15 * time.Second}[len(all)%2]
+			all = append(all, c)
+		}
+	}
 	reps := vh.EnvInt("VERIF_REPEAT", 2) // goroutines released at the same virtual instant run in any order
 	for r := 0; r < reps; r++ {
 		for _, c := range all {
 			runCase(t, c, rep, rec)
 		}
+	}
+	// histories of weight operations and submissions (SubmissionWeights.tla); their H4 events go to the same trace files
+	if p := os.Getenv("VERIF_WEIGHT_BEHS"); p != "" {
+		replayWeights(t, p, rec)
 	}
 	for _, r := range rec {
 		if err := r.Close(); err != nil {
